@@ -96,8 +96,11 @@ Tick(o, e) ==
       slow == \E op \in o.pend : 2 * (t - op.at) >= o.H
       vac == {k \in Keys : o.vacSince[k] >= 0 /\ t > VacancyDeadline(o.vacSince[k], o.L)}
       \* a candidate must still be there when the bound expires (one that stopped meanwhile owes nothing)
+      \* ... and the store must be answering it: a candidate with an operation outstanding for longer than the
+      \* configured latency is not served by a responsive store at the moment
+      Served(i) == \A op \in o.pend : op.i = i => t - op.at <= 2 * o.L + 1000
       vv == {V("C06", "vacancy_not_filled_in_time", "env", e) :
-                k \in {k2 \in vac : \E i \in Ids : Cand(o, i) /\ o.I[i].cfg.group = k2}}
+                k \in {k2 \in vac : \E i \in Ids : Cand(o, i) /\ o.I[i].cfg.group = k2 /\ Served(i)}}
       T(q) == OpTimeout(o.I[q.i].cfg.h)
       pend2 == {IF q.i \in Ids /\ q.kind = "update" /\ ~q.to /\ t - q.at >= T(q) THEN [q EXCEPT !.to = TRUE] ELSE q : q \in o.pend}
   IN R([o EXCEPT !.I = [i \in Ids |-> rs[i].o], !.slow = @ \/ slow, !.now = t, !.pend = pend2,
@@ -258,7 +261,10 @@ H_op_resp(o, e) ==
       lostResp == e.lost \/ (~e.ok /\ e.err \in {"timeout", "connclosed", "noresponders"})
       o1 == SetI(o0, e.i, y4)
       o2 == IF lostResp THEN Rearm([o1 EXCEPT !.faulty = TRUE, !.I[e.i].cut = TRUE], e.t) ELSE o1
-  IN R(o2, {})
+      \* an operation that took much longer than the configured latency: the store was not responsive for this
+      \* instance until now; the vacancy bound counts from here (C06 "plus operation latencies")
+      o3 == IF e.lat > 2 * o.L + 1000 THEN Rearm(o2, e.t) ELSE o2
+  IN R(o3, {})
 
 H_w_deliver(o, e) == R(o, {})
 H_w_drop(o, e) == R(Rearm([o EXCEPT !.faulty = TRUE], e.t), {})
